@@ -3,6 +3,7 @@
 -/
 import Ladybug.DrvCore
 import Ladybug.Model.Cal
+import Ladybug.Model.C08Hist
 
 open Drv Cal
 
@@ -52,7 +53,7 @@ def onDT (r : Option (Except Err DT)) (f : DT → String) : String :=
   | some (.error e) => showErr e
   | some (.ok d) => f d
 
-def handle (toks : List String) : String :=
+def handleBase (toks : List String) : String :=
   match toks with
   | ["from_moy", leap, moy] =>
     match bool? leap, moy.toInt? with
@@ -199,6 +200,57 @@ def handle (toks : List String) : String :=
       | none => "err:value"
     | none => "bad-op"
   | _ => "bad-op"
+
+/-! ### histories (round 3): `hist <op> <op> ...`, one token per op, fields separated by `:` -/
+
+def productRat? (bits : String) (neg : Bool) : Option Rat :=
+  match floatBits? bits with
+  | some f => Py.ratOfFloatBits ((if neg then -f else f) * 60.0).toBits
+  | none => none
+
+def form? (s : String) : Option Hist.Form :=
+  if s = "array" then some .array else if s = "dict" then some .dict
+  else if s = "reduce" then some .reduce else if s = "text" then some .text
+  else if s = "date_time" then some .dateAndTime else none
+
+def histOp? (tok : String) : Option Hist.Op :=
+  match tok.splitOn ":" with
+  | ["fm", l, m] => do pure (.fromMoy (← bool? l) (← m.toInt?))
+  | ["fh", l, bits] => do pure (.fromHoy (← bool? l) (← productRat? bits false))
+  | ["fd", l, k] => do pure (.fromDoy (← bool? l) (← k.toInt?))
+  | ["mk", l, mo, da, h, mi] => do
+      pure (.make (← bool? l) (← mo.toNat?) (← da.toNat?) (← h.toNat?) (← mi.toNat?))
+  | ["am", k] => do pure (.addMin (← k.toInt?))
+  | ["sm", k] => do pure (.subMin (← k.toInt?))
+  | ["ah", bits] => do pure (.addHour (← productRat? bits false))
+  | ["sh", bits] => do pure (.addHour (← productRat? bits true))
+  | ["sl", b] => do pure (.setLeap (← bool? b))
+  | ["md", m] => do pure (.setMod (← m.toNat?))
+  | ["via", f] => do pure (.via (← form? f))
+  | ["rd"] => some .read
+  | _ => none
+
+def showOut : Hist.Out → String
+  | .refused e => showErr e
+  | .obs o => s!"ok {o.month} {o.day} {o.hour} {o.minute} {showBool o.leap} {o.doy} {o.intHoy} {o.moy} {showRat o.hoy}"
+
+def handleHist (toks : List String) : String :=
+  match toks.mapM histOp? with
+  | none => "bad-op"
+  | some ops => " | ".intercalate ((Hist.trace Hist.Obj.fresh ops).map showOut)
+
+def handle (toks : List String) : String :=
+  match toks with
+  | "hist" :: rest => handleHist rest
+  | ["from_moy_f", leap, bits] =>
+    -- from_moy(x) for a float x: `int(moy)` truncates toward zero
+    match bool? leap, hex? bits with
+    | some l, some n =>
+      match Py.ratOfFloatBits (UInt64.ofNat n) with
+      | some x => showDT (fromMoy l (Py.truncRat x))
+      | none => "err:value"
+    | _, _ => "bad-op"
+  | _ => handleBase toks
 
 end DrvC08
 
